@@ -84,6 +84,9 @@ pub struct ScenarioConfig {
     pub gate: bool,
     #[serde(default)]
     pub lazy: bool,
+    /// burn_cycles: every heartbeat burns the canister's balance (1_000_000 cycles in the native runtime)
+    #[serde(default)]
+    pub burn: bool,
     #[serde(default)]
     pub seed: u64,
     /// include the bookkeeping snapshot (C20) in every post-state
@@ -268,6 +271,7 @@ impl Exec {
             syncing: Some(flag(sc.config.syncing)),
             disable_api_if_not_fully_synced: Some(flag(sc.config.gate)),
             lazily_evaluate_fee_percentiles: Some(flag(sc.config.lazy)),
+            burn_cycles: Some(flag(sc.config.burn)),
             fees: Some(fees_from_json(&sc.config.fees)),
             ..Default::default()
         });
@@ -307,7 +311,8 @@ impl Exec {
         json!({
             "ev": "universe",
             "cfg": {"net": self.cfg.net, "thr": self.cfg.thr, "api": self.cfg.api, "syncing": self.cfg.syncing,
-                    "gate": self.cfg.gate, "lazy": self.cfg.lazy, "fees": fees_to_json(&fees_from_json(&self.cfg.fees))},
+                    "gate": self.cfg.gate, "lazy": self.cfg.lazy, "burn": self.cfg.burn,
+                    "fees": fees_to_json(&fees_from_json(&self.cfg.fees))},
             "book": self.cfg.book,
             "naddr": self.uni.addr_strings.len(),
             "uni": {"par": par, "diff": diff, "time": time, "btx": btx, "tin": tin, "tout": tout, "vsz": vsz},
@@ -616,9 +621,15 @@ impl Exec {
                 "syncing": s.syncing_state.syncing == Flag::Enabled,
                 "gate": s.disable_api_if_not_fully_synced == Flag::Enabled,
                 "lazy": s.lazily_evaluate_fee_percentiles == Flag::Enabled,
+                "burn": s.burn_cycles == Flag::Enabled,
                 "fees": fees_to_json(&s.fees),
             });
             let st = &s.syncing_state;
+            // cycles burnt, in units of what one heartbeat burns natively (a remainder would show as a mismatch)
+            let burnt = {
+                let b = s.metrics.cycles_burnt.unwrap_or(0);
+                if b % 1_000_000 == 0 { json!((b / 1_000_000) as u64) } else { json!(format!("{b}")) }
+            };
             let cnt = json!({
                 "rej": st.num_get_successors_rejects,
                 "deser": st.num_block_deserialize_errors,
@@ -626,6 +637,7 @@ impl Exec {
                 "reqInit": st.get_successors_request_stats.initial_count,
                 "reqFollow": st.get_successors_request_stats.follow_up_count,
                 "sendtx": s.metrics.send_transaction_count,
+                "burnt": burnt,
             });
             let mut post = json!({
                 "stableH": s.utxos.next_height(),
@@ -991,8 +1003,8 @@ impl Exec {
             Ok(c) => json!({"k": "ok", "cfg": {
                 "net": c.network.to_string(), "thr": c.stability_threshold as u64, "api": c.api_access == Flag::Enabled,
                 "syncing": c.syncing == Flag::Enabled, "gate": c.disable_api_if_not_fully_synced == Flag::Enabled,
-                "lazy": c.lazily_evaluate_fee_percentiles == Flag::Enabled, "fees": fees_to_json(&c.fees)},
-                "burn": c.burn_cycles == Flag::Enabled,
+                "lazy": c.lazily_evaluate_fee_percentiles == Flag::Enabled, "burn": c.burn_cycles == Flag::Enabled,
+                "fees": fees_to_json(&c.fees)},
                 "watchdog": format!("{:?}", c.watchdog_canister), "source": c.blocks_source.to_string()}),
         };
         json!({"ev": "q", "ep": "config", "ans": ans})
@@ -1166,6 +1178,7 @@ impl Exec {
             api_access: d.get("api").and_then(|v| v.as_bool()).map(flag),
             disable_api_if_not_fully_synced: d.get("gate").and_then(|v| v.as_bool()).map(flag),
             lazily_evaluate_fee_percentiles: d.get("lazy").and_then(|v| v.as_bool()).map(flag),
+            burn_cycles: d.get("burn").and_then(|v| v.as_bool()).map(flag),
             fees: d.get("fees").map(fees_from_json),
             ..Default::default()
         }
